@@ -640,6 +640,46 @@ fn replay_daily_marks(sc: &Value) -> Value {
     json!({"status": "done", "missing": missing, "missing_culprit": culprit_missing, "marks": marks.len()})
 }
 
+/// C03: Node::filter_existing on an in-memory SQLite holding the stored version; signatures are the 8 big-endian bytes
+/// of the model's rank, so that the byte order is the rank order
+fn replay_version_selection(sc: &Value) -> Value {
+    use crate::database::node::NodeIdentifier;
+    let ver = |name: &str| -> (i64, Vec<u8>) {
+        let v = &sc["versions"][name];
+        (i(&v["mdate"]), v["sig_rank"].as_u64().unwrap().to_be_bytes().to_vec())
+    };
+    let id = uid("N1");
+    let other = uid("N2");
+    let mut requested = vec![];
+    for run in sc["runs"].as_array().unwrap() {
+        let conn = rusqlite::Connection::open_in_memory().unwrap();
+        Node::create_tables(&conn).unwrap();
+        let (sm, ss) = ver(run["stored"].as_str().unwrap());
+        let (am, asig) = ver(run["announced"].as_str().unwrap());
+        let mut stored = Node {
+            id,
+            room_id: Some(uid("R1")),
+            cdate: 0,
+            mdate: sm,
+            _entity: "E".to_string(),
+            _json: Some("{}".to_string()),
+            _binary: None,
+            verifying_key: vec![1, 2, 3],
+            _signature: ss,
+            _local_id: None,
+        };
+        stored.write(&conn, false, &None, &None).unwrap();
+        let mut set: HashSet<NodeIdentifier> = HashSet::new();
+        set.insert(NodeIdentifier { id, mdate: am, signature: asig });
+        if sc["extra"].as_bool().unwrap_or(false) {
+            set.insert(NodeIdentifier { id: other, mdate: 5, signature: vec![7] });
+        }
+        let res = Node::filter_existing(&mut set, &conn).unwrap();
+        requested.push(res.iter().any(|n| n.id == id));
+    }
+    json!({"status": "done", "requested": requested})
+}
+
 fn replay_data_model_update(sc: &Value) -> Value {
     use crate::database::query_language::data_model_parser::DataModel;
     let old_text = sc["old_text"].as_str().unwrap();
@@ -667,6 +707,44 @@ fn replay_data_model_update(sc: &Value) -> Value {
     let mut reapply_refused = false;
     let mut reapply_changes = false;
     let mut id_changed = false;
+    let mut id_collision = false;
+    let mut next_refused = false;
+    let mut attributes_differ = false;
+    // (deprecated, nullable, default) of every entity and field, by name
+    let attrs = |v: &Value| -> String {
+        let mut out: Vec<String> = vec![];
+        if let Some(nss) = v["namespaces"].as_object() {
+            for (_, ents) in nss {
+                for (en, e) in ents.as_object().unwrap() {
+                    out.push(format!("{}:{}", en, e["deprecated"]));
+                    for (fname, f) in e["fields"].as_object().unwrap() {
+                        out.push(format!("{}.{}:{}:{}:{}", en, fname, f["deprecated"], f["nullable"], f["default_value"]));
+                    }
+                }
+            }
+        }
+        out.sort();
+        out.join(";")
+    };
+    let collides = |v: &Value| -> bool {
+        let mut seen: HashSet<String> = HashSet::new();
+        if let Some(nss) = v["namespaces"].as_object() {
+            for (ns, ents) in nss {
+                for (_, e) in ents.as_object().unwrap() {
+                    if !seen.insert(format!("{}/{}", ns, e["short_name"])) {
+                        return true;
+                    }
+                    let mut fs: HashSet<String> = HashSet::new();
+                    for (_, f) in e["fields"].as_object().unwrap() {
+                        if !fs.insert(format!("{}", f["short_name"])) {
+                            return true;
+                        }
+                    }
+                }
+            }
+        }
+        false
+    };
     let mut old_err = None;
     for _ in 0..60 {
         let mut dm = DataModel::new();
@@ -687,6 +765,33 @@ fn replay_data_model_update(sc: &Value) -> Value {
                     }
                 }
                 assignments.insert(after_ids.clone());
+                if collides(&after) {
+                    id_collision = true;
+                }
+                // a peer that starts from the accepted version
+                let mut fresh = DataModel::new();
+                if fresh.update(new_text).is_ok() && attrs(&serde_json::to_value(&fresh).unwrap()) != attrs(&after) {
+                    attributes_differ = true;
+                }
+                if let Some(next_text) = sc["next_text"].as_str() {
+                    let text = serde_json::to_string(&dm).unwrap();
+                    let mut dm3: DataModel = serde_json::from_str(&text).unwrap();
+                    match dm3.update(next_text) {
+                        Ok(()) => {
+                            let nv = serde_json::to_value(&dm3).unwrap();
+                            let next_ids = ids(&nv);
+                            for item in after_ids.split(';') {
+                                if !item.is_empty() && !next_ids.split(';').any(|x| x == item) {
+                                    id_changed = true;
+                                }
+                            }
+                            if collides(&nv) {
+                                id_collision = true;
+                            }
+                        }
+                        Err(_) => next_refused = true,
+                    }
+                }
                 // restart on what was persisted, with the same model text
                 let text = serde_json::to_string(&dm).unwrap();
                 let mut dm2: DataModel = serde_json::from_str(&text).unwrap();
@@ -713,7 +818,8 @@ fn replay_data_model_update(sc: &Value) -> Value {
     }
     json!({"status": "done", "accepted": accepted_any && !refused_any, "mixed_verdicts": accepted_any && refused_any,
            "refused_changed_model": refused_changed_model, "distinct_assignments": assignments.len() > 1,
-           "reapply_refused": reapply_refused, "reapply_changes": reapply_changes, "id_changed": id_changed, "id_collision": false})
+           "reapply_refused": reapply_refused, "reapply_changes": reapply_changes, "id_changed": id_changed, "id_collision": id_collision,
+           "next_refused": next_refused, "attributes_differ": attributes_differ})
 }
 
 fn replay_bytes_decoder(sc: &Value) -> Value {
@@ -1513,6 +1619,7 @@ pub fn dispatch(sc: &Value) -> Value {
         "sign_oracle" => replay_sign_oracle(sc),
         "acquire_lock" => crate::synchronisation::room_locking_service::verif_hook::replay_acquire_lock(sc),
         "handshake" => crate::synchronisation::peer_inbound_service::verif_hook::replay_handshake(sc),
+        "version_selection" => replay_version_selection(sc),
         "invite_consumption" => crate::network::peer_manager::verif_hook::replay_invite_consumption(sc),
         "data_model_update" => replay_data_model_update(sc),
         "c12_deletion" => replay_c12_deletion(sc),
